@@ -50,7 +50,7 @@ theorem coerce_strImage (sac : Bool) (s : Str) : ∀ (t : Ty) (v' : V), t.wf = t
         have hnb : d13Basic.contains c = false := by
           unfold pb13 at h1; rw [hstr] at h1; simpa using h1
         simp only [cls_atom] at hc
-        rcases C20_tables_strSafe_basic sac c hc with hk | hk | hk | hk
+        rcases C20_tables_strSafe_basic sac c hc with hk | hk | hk | hk | hk
         · unfold construct at h
           simp only [hk] at h
           have h' : (Except.ok (V.atom Cls.PosixPath (Payload.str (pathNorm s))) : R V) = .ok v' := h
@@ -64,6 +64,13 @@ theorem coerce_strImage (sac : Bool) (s : Str) : ∀ (t : Ty) (v' : V), t.wf = t
           have h' : (Except.ok (V.atom Cls.str (Payload.str s)) : R V) = .ok v' := h
           cases h'
           exact .same
+        · -- a fileformats Text wrapping the whole string
+          unfold construct at h
+          simp only [hk] at h
+          split at h
+          · cases h
+            exact .atom _ _ (by intro hc'; subst hc'; revert hk; decide)
+          · cases h
         · rw [hk] at hnb; cases hnb
       · cases h
   | .union l, v', hw, h1, h => by
